@@ -251,6 +251,8 @@ def reference_tree(source, repl, applied):
                                 out.append(self.generic_visit(v))
                         else:
                             out.append(v)
+                    if old and not out and isinstance(old[0], ast.stmt) and not isinstance(node, ast.Module):
+                        out = [ast.Pass()]   # a block emptied by a deletion keeps a placeholder
                     old[:] = out
                 elif isinstance(old, ast.AST):
                     if id(old) in plan:
@@ -546,6 +548,7 @@ FIXED_SOURCES = [
     "x = a if f(b) else c\ny = lambda: f(1)\n",
     "x = f(  # pyrefact: ignore\n    f(1) + 1)\ny = f(f(2))\n",
     "if a:\n    x = 1\n    y = 2  # pyrefact: ignore\n    x = 3\n    y = 4\n",
+    "if a:\n    x = 1\nelse:\n    x = 2\nwhile b:\n    print(b)\nreturn_value = f(3)\n",
 ]
 
 
@@ -654,12 +657,12 @@ def fixed_family(with_comments=False):
     """Seed-independent small-scope family: every pattern x every replacement of its kind x the fixed
     sources x count in {0, 1, 2}."""
     for (pat, names) in EXPR_PATTERNS:
-        for repl in expr_replacements(names) + [pat] + (comment_replacements(names) if with_comments else []):
+        for repl in expr_replacements(names) + [pat, pat + "  "] + (comment_replacements(names) if with_comments else []):
             for src in FIXED_SOURCES:
                 for count in (0, 1, 2):
                     yield (pat, repl, src, count)
     for (pat, names) in STMT_PATTERNS:
-        for repl in stmt_replacements(names) + [pat]:
+        for repl in stmt_replacements(names) + [pat, pat + "  ", pat + "\n\n"]:
             for src in FIXED_SOURCES:
                 for count in (0, 1, 2):
                     yield (pat, repl, src, count)
@@ -927,6 +930,8 @@ def grammar_cases(mods, tier, rnd):
     stats["parse-exhaustive"] = sum(len(alphabet) ** n for n in range(1, maxlen + 1))
     for toks in strings:
         r = py_parse(text_of_tokens(toks))
+        if any(a == ("TRp",) and b == ("TLp",) for a, b in zip(toks, toks[1:])):
+            r = None   # `)(`: a call whose callee is not a bare name -- outside the fragment's token language
         rows.append(f"(CParse {g_toks(toks)} {gopt(r, g_expr)})")
         desc.append({"kind": "parse", "tokens": text_of_tokens(toks), "cpython": r})
         stats["parse"] += 1
@@ -1288,7 +1293,8 @@ def check(run: common.Run):
         "the theorems are about SubstModel.v / ExprModel.v; the tie to pattern_matching.py / processing.py / "
         "core.py is the exact correspondence above",
         "T14.4/T14.5 need every match range inside the source with start <= end (what get_charnos returns, C13)",
-        "the parser of ExprModel answers None for trees outside the fragment (n-ary and/or, chained comparison); "
+        "the parser of ExprModel answers None outside the fragment (n-ary and/or, chained comparison, `)(` = call of "
+        "a callee that is not a bare name); "
         "agreement with CPython is validated, not proved"]
 
 
